@@ -163,6 +163,7 @@ func (propC04) Gen(seed uint64, tier string, idx int) *Plan {
 			id++
 		}
 	}
+	stmtYields(r, p, 300)
 	p.Deadline = 120 * time.Second
 	p.Settle = 100 * time.Millisecond
 	return p
